@@ -654,12 +654,30 @@ func (in *Interp) obligation(st *State, id, kind, site string, cond *Term, msg s
 				altStart := time.Now()
 				for k := 0; k < in.Cfg.AltModels && time.Since(altStart) < 90*time.Second; k++ {
 					cons := append([]*Term{}, extra...)
+					// every second alternative perturbs a single input only (the others stay free), so that an input
+					// whose feasible range is narrow on this path does not make the whole constraint set unsatisfiable
+					single := -1
+					if k%2 == 1 && len(st.Inputs) > 0 {
+						single = (k / 2) % len(st.Inputs)
+					}
 					for vi, v := range st.Inputs {
 						if v.Sort != SInt || v.Lo == nil || v.Hi == nil {
 							continue
 						}
+						if single >= 0 && vi != single {
+							continue
+						}
 						span := new(big.Rat).Sub(v.Hi, v.Lo)
 						if span.Cmp(big.NewRat(4096, 1)) < 0 {
+							continue
+						}
+						if single >= 0 {
+							p := primes[(k/2/len(st.Inputs))%len(primes)] % 997
+							if p < 7 {
+								p = 7
+							}
+							res := (int64(k)*7919 + 13) % p
+							cons = append(cons, Eq(EMod(v, IntC(p)), IntC(res)))
 							continue
 						}
 						p := primes[(k+vi)%len(primes)]
@@ -673,6 +691,9 @@ func (in *Interp) obligation(st *State, id, kind, site string, cond *Term, msg s
 						}
 					}
 					if len(cons) == len(extra) {
+						if single >= 0 {
+							continue
+						}
 						break
 					}
 					in.Res.OblQ++
@@ -680,6 +701,9 @@ func (in *Interp) obligation(st *State, id, kind, site string, cond *Term, msg s
 					var m2 map[string]string
 					in.Sol.Quick(1500, func() { r2, m2 = in.Sol.ModelWith(st.Inputs, cons...) })
 					if r2 == Unknown {
+						if single >= 0 {
+							continue
+						}
 						break // not worth more time: these candidates are optional
 					}
 					if r2 != Sat {
